@@ -150,6 +150,8 @@ func init() {
 			"Not decided: that shape and strides address distinct in-bounds positions (a runtime invariant over values), that reshape preserves the flat sequence, repeat/concat calculators' arithmetic.",
 		Run: func(rc *rules.RC) {
 			rules.O11(rc, 1)
+			rules.DC(rc, "C13")
+			rules.T14(rc)
 			rules.T13(rc)
 			rules.S3(rc)
 			rules.S20(rc)
@@ -180,6 +182,7 @@ func init() {
 			rules.T11(rc)
 			rules.S18(rc)
 			rules.T9(rc)
+			rules.T14(rc)
 			rules.T10(rc)
 			rules.EP(rc, nil, 100)
 			rules.B2(rc)
@@ -202,6 +205,8 @@ func init() {
 		Explain: "Decides consistency of the iterator family, not its arithmetic: (I1) NextValidity reports !mask[i], NextValid stops on unmasked and NextInvalid on masked elements, in FlatMaskedIterator and MultIterator; (I2) NextValid and NextInvalid of one type are identical up to exactly that polarity; (I3) every path through FlatIterator.Reset rewrites every field the stepping functions mutate (done, nextIndex, track); (I4) the vector fast path addresses track/shape/strides through veclikeDim, which is the first axis of length != 1, and no vector arm uses a literal axis; (I5) the multi-iterator's stride-block key is the digest of all stride elements; (I6) colMajorNDNext is ndNext with loop direction and done-axis reversed. " +
 			"Not decided - and this is the core of the property: that the odometer yields offsets in row-major coordinate order, the skip counts, coordinate tracking values.",
 		Run: func(rc *rules.RC) {
+			rules.L0(rc, func(fn string) bool { return strings.HasSuffix(fn, ".IsVectorLike") }) // selects the iterator's unit-step fast path
+			rules.I11(rc)
 			rules.I10(rc)
 			rules.I9(rc)
 			rules.I8(rc)
@@ -243,6 +248,7 @@ func init() {
 			rules.LGuards(rc, "C08")
 			rules.PI(rc, 50)
 			rules.K12(rc, 80)
+			rules.MZ(rc)
 		},
 	})
 	register(&Property{
@@ -343,6 +349,8 @@ func init() {
 			"Not decided: block-copy offsets/strides of denseRepeat and denseSimpleStack, the slice-and-assign placement of denseConcat, data-order agreement of stacked operands (finding 19).",
 		Run: func(rc *rules.RC) {
 			rules.SK(rc)
+			rules.DC(rc, "C10")
+			rules.MZ(rc)
 			rules.SO(rc)
 			rules.IP2(rc)
 			rules.O8(rc)
@@ -520,6 +528,7 @@ func init() {
 			rules.O6opt(rc)
 			rules.M2(rc, nil, 40, 900)
 			rules.M7(rc, 300)
+			rules.IP3(rc)
 			rules.L0(rc, nil)
 			rules.M4(rc, nil, 40)
 			rules.LGuards(rc, "C07")
@@ -538,6 +547,7 @@ func init() {
 		Assume:    []string{"see C07 for the interpreter's summaries"},
 		Run: func(rc *rules.RC) {
 			rules.ND(rc, 36)
+			rules.IP3(rc)
 			fams := rules.Families(rc.P)
 			f := groupFilter("arith", "minmax")
 			rules.K1(rc, fams, f, 1200)
@@ -559,6 +569,7 @@ func init() {
 		Assume:    []string{"see C07 for the interpreter's summaries"},
 		Run: func(rc *rules.RC) {
 			rules.ND(rc, 36)
+			rules.IP3(rc)
 			fams := rules.Families(rc.P)
 			f := groupFilter("cmp")
 			rules.K1(rc, fams, f, 1040)
